@@ -244,7 +244,7 @@ CHECKS["C16"] = dict(
     level_note="A write that reports 0 bytes is injected for descriptor outputs only (fault kind 4, persistent, 5 s watchdog: a hang is a violation); for named outputs libstdc++ itself retries for ever, which says nothing about c-dns. Failures of rename/open/close are outside the enumerated faults. Known findings D12a-c are listed in known_findings.json by (clause, sink kind, compression, whether the faulted output is the one closed).",
     stages=[dict(harness="fault", variant="plain", args=["--mode", "fault"], link=["-rdynamic"])],
     rule="(scenario, k, fault kind, persistence) tuples enumerated exhaustively; non-trivial = the injected point was reached; unreachable points are harness errors",
-    bound_quick="all 45 scenarios, every write call, 3 fault kinds x 2 persistence modes (+ zero-byte writes on the 15 descriptor scenarios)", bound_thorough="same",
+    bound_quick="all 45 scenarios, every write call, 3 fault kinds x 2 persistence modes (+ zero-byte writes and a single EINTR on the 15 descriptor scenarios)", bound_thorough="same",
     assumptions=["C16 clause 1 is read as 'no silent loss': an exception no later than the rotate_output that closes the output (DESIGN 8.2)"],
 )
 ENGINES.append(dict(name="E-FAULT", path="harness/fault.cpp", serves_properties=["C15", "C16"], kind_free_text="exhaustive crash-point / write-fault enumeration with interposed write, writev, rename"))
